@@ -30,7 +30,7 @@ T = {
  "C03": ("signed-provenance / reference-term comparison of the three cores + loop-summary rule for merge_transforms",
          "Decides: the three cores of AbstractTransformed equal the change-of-variables wiring (inverse log-det added, forward subtracted, base density at the inverse image, condition to both, key once, one bijection/base pair); "
          "the default joint path; merge_transforms collects one bijection per visited level outermost-first, reverses once, merges on the innermost base; every factory returns Transformed(base, Invert(Scan(L)) if invert else Scan(L)); "
-         "every bijection class a factory can place on the data path satisfies value/mirror agreement; Chain.merge_chains keeps the order (loop, LIFO-stack and recursive forms); the public log_prob only maps NaN to -inf. Does NOT decide the numerical equalities (they follow given C01/C02 of the children).", "3 C03"),
+         "every bijection class a factory can place on the data path satisfies value/mirror agreement; Chain.merge_chains keeps the order (loop, LIFO-stack and recursive forms); the public log_prob is the vectorised core of the unwrapped distribution at x cast to float and only maps NaN to -inf. Does NOT decide the numerical equalities (they follow given C01/C02 of the children).", "3 C03"),
  "C04": ("interval abstract domain (bounded-image proofs) over bijections on flow data paths + structural tail rules",
          "Decides only the surjectivity-typing clause: no bijection placed on a flow's data path (factory layers, default BNAF activation) has a provably bounded image or domain in the interval domain; spline / LeakyTanh tails are the identity / tangent continuation; planar u-constraint keeps w.u > -1; "
          "sampler and density share one bijection and base and the flow wrapper bijections are mirror-consistent; the spline's only inexact-array pytree leaves are its raw vectors (interval ends static, so conditioners cannot move the knot span away from the tails); every occurrence of the BNAF raw weight sits under a Where(block_tril_mask, ., 0) wrapper (triangular for every parameter value); fields annotated as Python scalars hold Python values, not trainable array leaves (LeakyTanh's tail constants); Affine / Scale store their parameters broadcast to the declared shape. Does NOT decide that exp(log_prob) integrates to one nor sampler/density goodness of fit (global numerical quantities: not applicable to static analysis).", "3 C04"),
@@ -50,7 +50,7 @@ T = {
          "Decides for all weight values: masks live in unwrap-time Where wrappers (not eager products); last MADE layer strict, others non-strict, for depth 0..3 x conditional/unconditional by constant propagation; rank/ mask helper orientation; coupling dependency sets; per-coordinate transformer reconstruction; BNAF block-triangular/positive-diagonal wrapper tree (incl. softplus-positive weight-norm scale) and elementwise activation (depth grid 0..3, thorough 0..8); Where.unwrap selects if_true under cond and stores its fields verbatim (a literal 0 stays a static leaf); BNAF constructor fields for each depth. "
          "Does NOT decide numerical Jacobians or monotonicity of user activations.", "3 C09"),
  "C10": ("finite sign-case evaluation of where-blocks + ranking-function termination argument",
-         "Decides: the bisection while_loop has ranking function max_iter - iterations; for each sign in {-1,0,1} the bracket update keeps the sign invariant and halves the width, sign is exactly sign(func(mid)); adaptation moves the correct end by a doubling step, re-evaluates both new ends, collapses exact hits; driver solves coordinate i at coordinate i in order; the public inverter forwards transform(x)-y, shape[0] and its configured lower/upper/tol/max_iter unchanged, and no field converter / __init__ / __post_init__ rewrites the requested tol, max_iter or interval; parameters a call site passes beyond the recorded signature are analysed as free symbols. "
+         "Decides: the bisection while_loop has ranking function max_iter - iterations; for each sign in {-1,0,1} the bracket update keeps the sign invariant and halves the width, sign is exactly sign(func(mid)); adaptation moves the correct end by a doubling step, re-evaluates both new ends, collapses exact hits; driver solves coordinate i at coordinate i in order, on a working vector in the midpoint's own floating dtype; the public inverter forwards transform(x)-y, shape[0] and its configured lower/upper/tol/max_iter unchanged, and no field converter / __init__ / __post_init__ rewrites the requested tol, max_iter or interval; parameters a call site passes beyond the recorded signature are analysed as free symbols. "
          "Does NOT decide termination of interval adaptation for a given f nor accuracy at floating-point resolution.", "3 C10"),
  "C11": ("interval abstract domain on unwrap expressions + simplex/floor domain + guard dominance",
          "Decides for every finite raw value: softplus-reparameterised scales/diagonals/df are > 0, min-scale and min-derivative floors, planar w.u > -1 by the rational identity, weight-norm axis agreement, mixture weights through log_softmax, every spline bin has a positive floor; BijectionReparam stores inverse and applies transform; documented rejections exist, are boundary-inclusive and their result is consumed; the conditioner's parameter vector treats NonTrainable nodes as static leaves and the class non_trainable wraps arrays in is one every partition's is_leaf recognises (the min_scale floor stays a constant). "
@@ -59,16 +59,16 @@ T = {
          "Decides: every public entry point unwraps before touching fields; unwrap is recursive and wrapper-free; vectorised unwrap maps every array leaf; wrappers without vectorised unwrap address trailing axes only; NonTrainable applies stop_gradient; the four trainable-parameter partitions agree on filter and is_leaf and recombine with the same static. "
          "Does NOT decide bit-identity after an actual run or equinox's vmapped-construction semantics.", "3 C12"),
  "C13": ("class-table coverage of the installation hook + exact-comparison and who-must-call rules",
-         "Decides: the hook wraps exactly the abstract interface methods and every concrete class obtains each of the four from a class body (112 obligations); installed checks compare whole shape tuples exactly with `is not None` tests (no truthiness on shapes), failing branches raise, checked values are forwarded; constructors call their validators and validators raise on the documented predicate with tuple (non-broadcasting) comparisons - compared as raise-sets (propositionally exact over the atomic tests) when the guards are spelled differently; validators are called on the children's shapes / condition shapes respectively. "
+         "Decides: the hook wraps exactly the abstract interface methods and every concrete class obtains each of the four from a class body (112 obligations); installed checks compare whole shape tuples exactly with `is not None` tests (no truthiness on shapes), failing branches raise, checked values are forwarded; constructors call their validators and validators raise on the documented predicate with tuple (non-broadcasting) comparisons - compared as raise-sets (propositionally exact over the atomic tests) when the guards are spelled differently; validators are called on the children's shapes / condition shapes respectively; TriangularAffine broadcasts loc to (dim,) (what rejects a location that does not fit). "
          "Does NOT decide the exact shape of every successful return through arbitrary children.", "3 C13"),
  "C14": ("traced-value taint analysis over the call graph + static-field and effect lint",
-         "Decides: no Python control flow / bool()/int()/float() / numpy / math call on a traced value in any bijection/distribution method, unwrap or the bisection search (~120 functions); no array in a static field; no array bound into a closure or functools.partial stored in a model; no hidden state or foreign randomness; helper-function parameters are traced iff a call site passes a traced value; every non-Module class of the package (jit-static: losses, callables stored in module fields) keeps identity equality or defines an __eq__ that compares the full value of each attribute its other methods read, and stays hashable; no jit-compiled nested function reads a variable that a loop of its enclosing function rebinds (trace-time capture); every eqx.error_if is consumed through its result; no wrapper's unwrap passes Python-static leaves (shape ints, flags) through a jax operation; no cached_property on module classes; fields annotated as Python ints / tuples hold Python values (not traced arrays); arraylike_to_array is jnp.asarray behind the ArrayLike test (strongly typed leaves). "
+         "Decides: no Python control flow / bool()/int()/float() / numpy / math call on a traced value in any bijection/distribution method, unwrap or the bisection search (~120 functions); no array in a static field; Chain stores its own tuple of members, never the caller's sequence object; no array bound into a closure or functools.partial stored in a model; no hidden state or foreign randomness; helper-function parameters are traced iff a call site passes a traced value; every non-Module class of the package (jit-static: losses, callables stored in module fields) keeps identity equality or defines an __eq__ that compares the full value of each attribute its other methods read, and stays hashable; no jit-compiled nested function reads a variable that a loop of its enclosing function rebinds (trace-time capture); every eqx.error_if is consumed through its result; no wrapper's unwrap passes Python-static leaves (shape ints, flags) through a jax operation; no cached_property on module classes; fields annotated as Python ints / tuples hold Python values (not traced arrays); arraylike_to_array is jnp.asarray behind the ArrayLike test (strongly typed leaves). "
          "Does NOT decide numerical equality of jitted and eager results nor equinox's serialisation.", "3 C14"),
  "C15": ("reaching-definition dataflow on a hand-built CFG + train/val taint + PRNG-key typestate",
-         "Decides: co-permutation with one key and complementary slices of one bound (partition); per-epoch shuffles with fresh keys rebuilt only from themselves; prefix batching with one batch size and strict zip; no validation-derived value reaches step; every per-batch step/loss call gets a key that changes with the iteration; caller/callee argument order. "
+         "Decides: co-permutation with one key and complementary slices of one bound (partition); per-epoch shuffles with fresh keys rebuilt only from themselves; prefix batching with one batch size and strict zip (whichever of get_batches and its helper computes the layout, under get_batches' equal-length guard); no validation-derived value reaches step; every per-batch step/loss call gets a key that changes with the iteration; caller/callee argument order. "
          "Nothing is run; the row multiset is inferred under the jr.permutation/reshape/zip contracts.", "3 C15"),
  "C16": ("version (reaching-definition) analysis of the parameters the compared loss was evaluated at",
-         "Decides: one train and one val record per epoch dominating the stopping test; the only break is guarded by count_fruitless(val) > max_patience in the not-best branch; best parameters are the version the compared loss was evaluated at (through the summary of step), the compared value is the minimum of the whole record; return selection; max_patience / max_epochs / steps / return_best reach the loop exactly as passed. "
+         "Decides: one train and one val record per epoch dominating the stopping test; the only break is guarded by count_fruitless(val) > max_patience in the not-best branch; best parameters are the version the compared loss was evaluated at (through the summary of step), the compared value is the minimum of the whole record; return selection (a private NamedTuple / dataclass holding the loop state is replaced by one local per field first); max_patience / max_epochs / steps / return_best reach the loop exactly as passed. "
          "Does NOT decide behaviour for NaN losses or ties beyond first minimum.", "3 C16"),
  "C17": ("reference-estimator term comparison + stability lint",
          "Decides: each loss's __call__ equals its defining estimator (sign, reduction, forwarded arguments, unwrap / stop_gradient placement, per-sample target, key and sample shape shared by both ELBO branches), contrastive indices drawn without replacement from all other rows with one key per row, no log(softmax) normalisation; the loss classes' equality (they are static arguments of filter_jit) distinguishes every attribute __call__ reads. "
